@@ -17,10 +17,13 @@ import (
 
 type c19Step struct {
 	Mode  string    `json:"mode"`
-	Input model.Val `json:"input"`         // parse: input value; validate: typed value
+	Input model.Val `json:"input"`          // parse: input value; validate: typed value
 	Wrap  string    `json:"wrap,omitempty"` // parse: "" | ptr | ptrptr (the input is handed over behind pointers)
 	// Collect: the caller hands the issues back through the Collect helpers after looking at them
 	Collect string `json:"collect,omitempty"` // "" | each | all | sanitize
+	// Rot: struct roots only: this execution's destination type declares the same fields rotated by Rot
+	// (one schema value may serve several Go types; what it did for one must not change what it does for another)
+	Rot int `json:"rot,omitempty"`
 }
 
 type c19Case struct {
@@ -95,7 +98,7 @@ func propC19(c c19Case) hh.Verdict {
 	defaultApplied, nestedInput := false, false
 	for i, st := range c.Steps {
 		cs := model.Case{Root: c.Root, Input: st.Input, Exec: model.Exec{Mode: st.Mode}}
-		dest := newDest(typ, cs, false)
+		dest := newDest(model.RetaggedStruct(typ, nil, st.Rot), cs, false)
 		var in any
 		var inSnap string
 		before := model.CanonJSON(dest.Elem())
@@ -211,12 +214,19 @@ func genC19(rt *rapid.T, cfg model.GenCfg) c19Case {
 	n := rapid.IntRange(2, 6).Draw(rt, "nsteps")
 	for i := 0; i < n; i++ {
 		if i > 0 && rapid.IntRange(0, 2).Draw(rt, "repeat") == 0 {
-			c.Steps = append(c.Steps, c.Steps[rapid.IntRange(0, i-1).Draw(rt, "which")])
+			rep := c.Steps[rapid.IntRange(0, i-1).Draw(rt, "which")]
+			if root.Kind == model.KStruct && rapid.Bool().Draw(rt, "rerot") {
+				rep.Rot = rapid.IntRange(0, 3).Draw(rt, "rot2") // the same execution into another destination type
+			}
+			c.Steps = append(c.Steps, rep)
 			continue
 		}
 		mode := rapid.SampledFrom([]string{"parse", "validate"}).Draw(rt, "mode")
 		typed := g.GenTyped(root)
 		st := c19Step{Mode: mode, Input: typed, Collect: rapid.SampledFrom([]string{"", "", "each", "all", "sanitize"}).Draw(rt, "collect")}
+		if root.Kind == model.KStruct && rapid.IntRange(0, 2).Draw(rt, "rotate") == 0 {
+			st.Rot = rapid.IntRange(1, 3).Draw(rt, "rot")
+		}
 		if mode == "parse" {
 			st.Input, _ = g.Render(root, typed, "root")
 			if root.Kind == model.KStruct {
